@@ -296,7 +296,9 @@ func (mltp MaskedLinearTransformationProtocol) Transform(ct *rlwe.Ciphertext, tr
 
 	*ciphertextOut.MetaData = *ct.MetaData
 
-	if transform != nil {
+	// The encoding domain changes only if the transform decodes without encoding
+	// back, or encodes without having decoded.
+	if transform != nil && transform.Decode != transform.Encode {
 		ciphertextOut.IsBatched = transform.Encode
 	}
 
